@@ -493,7 +493,8 @@ func KeyMat(t *rapid.T, alg int64) refcose.KeyMat {
 	case "ed":
 		km.D = rapid.SliceOfN(rapid.Byte(), 32, 32).Draw(t, "ed-seed")
 	default:
-		km.RSA = rapid.SampledFrom([]string{"rsa2048", "rsa2048b", "rsa3072", "rsa4096"}).Draw(t, "rsa-key")
+		// (2049 / 2055 bits: moduli whose length is no whole number of bytes - signatures are 257 bytes long)
+		km.RSA = rapid.SampledFrom([]string{"rsa2048", "rsa2048b", "rsa3072", "rsa4096", "rsa2049", "rsa2055"}).Draw(t, "rsa-key")
 	}
 	return km
 }
